@@ -2,6 +2,7 @@
 findings to listed known findings through their normalisers, collect coverage."""
 from __future__ import annotations
 
+import os
 import re
 from typing import Any, Callable, Dict, List, Optional, Sequence, Tuple
 
@@ -72,6 +73,12 @@ def run_family(ctx: Ctx, check_id: str, programs: Sequence[Tuple[str, str, Dict[
         "nontrivial_programs": 0, "disagreements_checked": 0, "samples": [], "cut_programs": [],
     }
     distinct = set()
+    cross_dir = None
+    if not ctx.quick or os.environ.get("VERIF_CROSSCHECK"):
+        # thorough tier: a sample of the queries is dumped as SMT-LIB and re-decided by two more solvers afterwards
+        from vlib import crosscheck
+
+        cross_dir = crosscheck.begin(f"{check_id}_{ctx.tier}", os.path.join(common.VERIF, ".work"))
     for res in common.pool_map(work, items):
         if res[0] == "err":
             outcome.harness_errors.append(f"{check_id}: worker failed: {res[1][:600]}")
@@ -107,6 +114,12 @@ def run_family(ctx: Ctx, check_id: str, programs: Sequence[Tuple[str, str, Dict[
             else:
                 outcome.violations.append(j)
     cov["distinct_programs"] = len(distinct)
+    if cross_dir is not None:
+        cc = crosscheck.end(cross_dir)
+        for dis in cc["disagreements"][:5]:
+            outcome.harness_errors.append(f"{check_id}: solver disagreement: z3 API says {dis['z3_api']}, {dis['solver']} says {dis['got']} on a dumped query")
+        cc["disagreements"] = len(cc["disagreements"])
+        cov["solver_crosscheck"] = cc
     cov["solver_s"] = round(cov["solver_s"], 2)
     cov["tealer_s"] = round(cov["tealer_s"], 2)
     return cov
